@@ -112,6 +112,76 @@ pub fn run(ctx: &Ctx) -> Rep {
     let (r1, x1) = merge_states(s1);
     rep.merge(r1);
 
+    // ---- two-call histories: word->bit of a card right after any word, and the reverse ----------------------
+    {
+        let cards = model::words52();
+        let stride: u32 = ctx.pick(1, 256, 8) as u32;
+        let off: u32 = (seed % stride as u64) as u32;
+        let hblocks: Vec<u32> = blocks.iter().copied().filter(|b| ctx.smoke() || b % stride == off).collect();
+        let sh = par_run(ctx, hblocks.len(), mk, |st, bi| {
+            let hi = hblocks[bi] << 16;
+            let top = if ctx.smoke() { 0x3F } else { 0xFFFF };
+            for lo in 0..=top {
+                let w = hi | lo;
+                let want_w = model_card_index(w).map_or(0, model::bit);
+                st.cur[0] = w;
+                st.cur_len = 1;
+                st.cur_what = "from_ckc histories";
+                for (ci, &c) in cards.iter().enumerate() {
+                    let a = <u64 as BC64>::from_ckc(w);
+                    let b = <u64 as BC64>::from_ckc(c);
+                    if a != want_w || b != model::bit(ci as u8) {
+                        let prev = if ci == 0 { w } else { cards[ci - 1] };
+                        st.rep.violation(
+                            "word-to-bit conversion gives the same answer whatever was converted before",
+                            "BinaryCard::from_ckc after BinaryCard::from_ckc",
+                            Input::Words(if a != want_w { vec![prev, w] } else { vec![w, c] }),
+                            format!("{:#018x} / {:#018x}", want_w, model::bit(ci as u8)),
+                            format!("{:#018x} / {:#018x}", a, b),
+                        );
+                    }
+                }
+                st.rep.evaluations += 104;
+            }
+            st.rep.add("two_call_from_ckc_histories", (top as u64 + 1) * 104);
+        });
+        let (rh, _) = merge_states(sh);
+        rep.merge(rh);
+        // bit->word: every card bit right after every structured / one- / two-bit set, and the reverse
+        let mut st = St { rep: Rep::new(), x: mk(), cur: [0; 8], cur_len: 0, cur_what: "" };
+        let mut sets: Vec<u64> = vec![0, u64::MAX, <u64 as BC64>::ALL, <u64 as BC64>::OVERFLOW];
+        for a in 0..64 {
+            sets.push(1u64 << a);
+            for b in (a + 1)..64 {
+                sets.push((1u64 << a) | (1u64 << b));
+            }
+        }
+        let r = drive::guard(|| {
+            for &s in &sets {
+                let want_s = if s.count_ones() == 1 && s.trailing_zeros() < 52 { model::word(51 - s.trailing_zeros() as u8) } else { 0 };
+                for i in 0..52u8 {
+                    let a = <CKCNumber as PokerCard>::from_binary_card(s);
+                    let b = <CKCNumber as PokerCard>::from_binary_card(model::bit(i));
+                    st.rep.evaluations += 2;
+                    if a != want_s || b != model::word(i) {
+                        st.rep.violation(
+                            "bit-to-word conversion gives the same answer whatever was converted before",
+                            "CKCNumber::from_binary_card after CKCNumber::from_binary_card",
+                            Input::U64s(vec![s, model::bit(i)]),
+                            format!("{:#010x} / {:#010x}", want_s, model::word(i)),
+                            format!("{:#010x} / {:#010x}", a, b),
+                        );
+                    }
+                }
+            }
+        });
+        if let Err(msg) = r {
+            st.rep.violation("panic", "from_binary_card", Input::None, "normal return".into(), msg);
+        }
+        st.rep.add("two_call_from_binary_card_histories", sets.len() as u64 * 104);
+        rep.merge(st.rep);
+    }
+
     // ---- 64-bit values: structure + every popcount + seeded -------------------------------
     let n_rand = ctx.pick(2_000, 1_000_000, 50_000_000) as usize;
     let chunks = 64usize;
@@ -128,11 +198,21 @@ pub fn run(ctx: &Ctx) -> Rep {
             for &(_, _, m) in NAMED_RANK_MASKS.iter() {
                 v.push(m);
             }
-            if ctx.thorough() {
+            if !ctx.smoke() {
+                // every three- and four-bit value (41,664 + 635,376); every five-bit value (7,624,512) in thorough
                 for a in 0..64 {
                     for b in (a + 1)..64 {
                         for c in (b + 1)..64 {
-                            v.push((1u64 << a) | (1u64 << b) | (1u64 << c));
+                            let m3 = (1u64 << a) | (1u64 << b) | (1u64 << c);
+                            v.push(m3);
+                            for d in (c + 1)..64 {
+                                v.push(m3 | (1u64 << d));
+                                if ctx.thorough() {
+                                    for e in (d + 1)..64 {
+                                        v.push(m3 | (1u64 << d) | (1u64 << e));
+                                    }
+                                }
+                            }
                         }
                     }
                 }
@@ -192,7 +272,7 @@ pub fn run(ctx: &Ctx) -> Rep {
     rep.rule = format!(
         "all 2^32 words through from_ckc; the 52 DECK entries and 52 named bit constants; every 1- and 2-bit 64-bit value{}, complements of single bits, \
          ALL / OVERFLOW / rank masks, and {} seeded values cycling through every population count through from_binary_card; distinct = words + structured sets + seeded sets (conservative)",
-        if ctx.thorough() { " and every 3-bit value" } else { "" },
+        if ctx.thorough() { ", every 3-, 4- and 5-bit value" } else { ", every 3- and 4-bit value" },
         n_rand
     );
     rep
